@@ -15,7 +15,7 @@ PROPS = [("theories/Region/Props.v", "Region.Props")]
 AREAS = ["theories/Region"]
 ROOTS = ("ov_c09",)
 CONV_BOUND = 4          # C09_converges: rounds until the request is served by the current leader
-REALISTIC = ("rand", "real", "f07", "many", "bkt")   # mocktikv numbers epochs like TiKV (since /repo c65efb3): the bound holds in every class
+REALISTIC = ("rand", "real", "f07", "many", "bkt", "wide")   # mocktikv numbers epochs like TiKV (since /repo c65efb3): the bound holds in every class
 
 
 def unhex(s):
@@ -209,7 +209,7 @@ def check_seq(sq, fails, stats):
             if not contains(l["s"], l["e"], k):
                 fail("C09_contains", "LocateKey(%s) returned %s which does not contain the key" % (a[0], parts[0]))
             ent = entries_of(op["dump"]).get(((l["id"], l["ver"], l["conf"]), l["s"].hex() or "-"))
-            if ent is not None and ent["e"] == l["e"] and int(parts[1][1:]) != ent["bver"]:
+            if not op["qs"] and ent is not None and ent["e"] == l["e"] and int(parts[1][1:]) != ent["bver"]:   # a pure cache hit returns the entry itself
                 fail("C09_bucket(GetBucketVersion)", "location %s reports bucket version %s, the cached entry has %d" % (parts[0], parts[1], ent["bver"]))
             if bres not in ("nobuckets",):
                 stats["bucket_lookups"] = stats.get("bucket_lookups", 0) + 1
@@ -223,7 +223,7 @@ def check_seq(sq, fails, stats):
                         fail("C09_bucket_contains", "LocateBucket(%s) on %s returned [%s) which does not contain the key" % (a[1], parts[0], bres))
                     inside = l["s"] <= bs and (l["e"] == b"" or (be != b"" and be <= l["e"])) and (be == b"" or bs < be)
                     if not inside:
-                        found = ent is not None and ent["bkeys"] is not None and go_locate_bucket(ent["bkeys"], probe) is not None
+                        found = (not op["qs"]) and ent is not None and ent["bkeys"] is not None and go_locate_bucket(ent["bkeys"], probe) is not None
                         if found:
                             fail("C09_bucket_inside", "LocateBucket(%s) on %s returned [%s) which is not inside the region although the search found it (bucket keys %s)"
                                  % (a[1], parts[0], bres, [x.hex() for x in (ent or {}).get("bkeys") or []]))
@@ -244,8 +244,10 @@ def check_seq(sq, fails, stats):
                 for (s, e) in parse_ranges(a[1]):
                     miss = covers(locs, s, e)
                     if miss is not None:
-                        fail("C09_range_gap_free", "BatchLocateKeyRanges(%s): key %s of range [%s,%s) is in no returned location %s"
-                             % (a[1], miss.hex() or "-", s.hex() or "-", e.hex() or "-", body))
+                        nr = len(parse_ranges(a[1]))
+                        fail("C09_range_gap_free", "BatchLocateKeyRanges(%s): key %s of range [%s,%s) (range #%d of %d) is in no returned location %s"
+                             % (a[1] if nr <= 8 else "%d ranges %s ... %s" % (nr, a[1][:40], a[1][-30:]), miss.hex() or "-", s.hex() or "-", e.hex() or "-",
+                                parse_ranges(a[1]).index((s, e)), nr, body[:300]))
                         break
         elif name in ("bload", "bloads") and ok:
             locs = parse_locs(body)
@@ -297,6 +299,15 @@ def check_seq(sq, fails, stats):
                 pv, pc = prev_latest[i]
                 if v < pv or c < pc:
                     fail("C09_no_regress", "latest version of region %d went from (ver %d, conf %d) to (ver %d, conf %d)" % (i, pv, pc, v, c))
+        # latestVersions[id] is only dropped together with the entry that carries exactly that version: if that entry is
+        # still indexed afterwards the record must still be there and not lower (any operation)
+        verids_now = set(k2[0] for k2 in entries_of(op["dump"]))
+        for i, (v, c) in prev_latest.items():
+            if name != "clear" and any(vid == (i, v, c) for vid in verids_now):
+                nv = lat.get(i)
+                if nv is None or nv[0] < v or nv[1] < c:
+                    fail("C09_no_regress(latest kept)", "latestVersions[%d] was (ver %d, conf %d) and that version is still indexed, but the record is now %s"
+                         % (i, v, c, nv))
         # bucket versions of an entry that stays in place never go back
         ents_now = entries_of(op["dump"])
         if one_insert or name in ("bvnm", "ubuckets"):
